@@ -11,9 +11,10 @@ EXTENDS Integers, FiniteSets, TLC
 \* "orphan0": the process exits 0 at once and leaves a child behind that keeps the inherited output pipe open for a
 \* while (the exit notification may wait for that pipe; its status is still the leader's)
 \* "orphanq": the same, but the child does not hold the output (the exit of the leader is noticed at once)
-Behs == {"exit0", "exit3", "sigusr1", "trapterm", "ignoreterm", "fork", "forkignore", "orphan0", "orphanq"}
+\* "exit137": exits with a status above 128 (what a shell reports for a signalled child) - an exit status all the same
+Behs == {"exit0", "exit3", "exit137", "sigusr1", "trapterm", "ignoreterm", "fork", "forkignore", "orphan0", "orphanq"}
 Ignoring == {"ignoreterm", "forkignore"}       \* SIGTERM has no effect
-SelfExiting == {"exit0", "exit3", "sigusr1", "orphan0", "orphanq"}   \* terminate by themselves after their delay
+SelfExiting == {"exit0", "exit3", "exit137", "sigusr1", "orphan0", "orphanq"}   \* terminate by themselves after their delay
 
 NewProc(beh, delay, t) ==
     [st |-> "starting", beh |-> beh, delay |-> delay, t0 |-> t, term |-> FALSE, kills |-> 0,
@@ -21,7 +22,7 @@ NewProc(beh, delay, t) ==
 
 \* true status of a process that died for `cause` (fake: a scripted process has no trap handler)
 StatusOf(p, cause, fake) ==
-    CASE cause = "natural" -> (IF p.beh \in {"exit0", "orphan0", "orphanq"} THEN "exit:0" ELSE IF p.beh = "exit3" THEN "exit:3" ELSE "signal:10")
+    CASE cause = "natural" -> (IF p.beh \in {"exit0", "orphan0", "orphanq"} THEN "exit:0" ELSE IF p.beh = "exit3" THEN "exit:3" ELSE IF p.beh = "exit137" THEN "exit:137" ELSE "signal:10")
       [] cause = "term" -> (IF p.beh = "trapterm" /\ ~fake THEN "exit:7" ELSE "signal:15")
       [] cause = "kill" -> "signal:9"
 
